@@ -177,6 +177,77 @@ func checkC08Batch(t *testing.T, sc BatchSc) Verdict {
 	return judgeC08Batch(&sc, x, br, fail)
 }
 
+// checkC08Again: the same, untouched batch node object is run a second time with another item
+// list (a batch node inside a loop, a node re-used for the next request): the second run is held
+// to C08 like any run - at most c in flight, and all of min(c, n) blocking executions in flight
+// together - whatever the first run's size was. sc describes the FIRST run (never gated, its
+// items succeed at once); sc.Second supplies the second run's items, gating and barrier.
+func checkC08Again(t *testing.T, sc BatchSc) Verdict {
+	if sc.Second == nil {
+		return checkC08Batch(t, sc)
+	}
+	c08Normalise(&sc)
+	sc.Gated, sc.Barrier, sc.Sched = false, 0, nil
+	eff := sc
+	eff.N, eff.Items, eff.Sched, eff.Gated, eff.Barrier, eff.PostAct = sc.Second.N, sc.Second.Items, sc.Second.Sched, sc.Second.Gated, sc.Second.Barrier, sc.Second.PostAct
+	eff.Second = nil
+	c08Normalise(&eff)
+	items := append([]ItemScript(nil), eff.Items...)
+	for i := range items {
+		items[i].PreErr = false
+	}
+	eff.Items = items
+	if eff.Gated {
+		eff.Barrier = 0
+	}
+	var x *batchExec
+	var br batchRun
+	refused := false
+	fail := Bubble(t, func() {
+		x = newBatchExec(&sc)
+		first := x.run()
+		if first.Panic != "" || first.Rejected || first.Err != nil {
+			br, refused = first, true
+			return
+		}
+		x.rerun(&eff)
+		if eff.Gated {
+			x.qp = c08QP
+		}
+		br = x.run()
+	})
+	if refused {
+		return ok(false, "first-run-did-not-succeed")
+	}
+	if x != nil && br.Err != nil && br.Panic == "" && len(br.Events) == 0 {
+		return ok(false, "second-run-refused") // whether a node may be run twice is not C08's clause
+	}
+	v := judgeC08Batch(&eff, x, br, fail)
+	if v.Violation != "" {
+		v.Violation = fmt.Sprintf("second run of the same, untouched batch node (first run: %d items, this run: %d): %s", sc.n(), eff.n(), v.Violation)
+		v.Fingerprint += ":again"
+	}
+	v.Classes = append(v.Classes, "second-run")
+	if sc.n() < sc.C {
+		v.Classes = append(v.Classes, "first-run-smaller-than-c")
+	}
+	return v
+}
+
+func genC08Again(rt *rapid.T) BatchSc {
+	c := rapid.IntRange(1, 16).Draw(rt, "c")
+	g := batchGen{MinN: 0, MaxN: 2 * c, MaxC: 0, MaxBudget: 1, Gated: 0, PrepForms: []int{PFResults, PFAnySlice, PFIntSlice}, Modes: []int{0, 1, 2}}
+	b := g.gen(rt)
+	b.C = c
+	g2 := batchGen{MinN: 1, MaxN: 4*c + 8, MaxC: 0, MaxBudget: 1, Gated: 2, MaxSched: 80, PrepForms: []int{b.PrepForm}, Modes: []int{0}}
+	s := g2.gen(rt)
+	if !s.Gated && rapid.Bool().Draw(rt, "barrier") {
+		s.Barrier = min(c, s.n())
+	}
+	b.Second = &s
+	return b
+}
+
 func genC08Batch(rt *rapid.T) BatchSc {
 	c := rapid.IntRange(0, 16).Draw(rt, "c")
 	g := batchGen{MinN: 1, MaxN: 4*c + 8, MaxC: 0, MaxBudget: 1, PFail: 200, Gated: 2, MaxSched: 80, PrepForms: []int{PFResults, PFAnySlice, PFIntSlice}, Modes: []int{0, 1, 2}}
@@ -238,6 +309,34 @@ func TestC08(t *testing.T) {
 			r.exhaustive(fmt.Sprintf("all %d release orders for n=%d,c=%d with the in-flight equation checked at every quiescent point", cnt, sp[0], sp[1]))
 		}
 	}
+	// the same untouched node run twice: a small first run (fewer items than c) must not shrink
+	// what the second run may use, a large one must not widen it
+	k = 0
+	for c := 1; c <= 16; c++ {
+		for _, n1 := range []int{0, 1, c - 1, 4*c + 8} {
+			for _, barrier := range []bool{false, true} {
+				if n1 < 0 || (n1 == c-1 && c <= 2) {
+					continue
+				}
+				if r.mine(k) {
+					b := c06Base(n1, c, PFResults)
+					b.Gated = false
+					for i := range b.Items {
+						b.Items[i].Exec[0].Err = 0
+					}
+					sec := c06Base(4*c+8, c, PFResults)
+					if barrier {
+						sec.Gated, sec.Barrier = false, c
+					}
+					b.Second = &sec
+					evalCase(r, "each-c-again", b, checkC08Again)
+				}
+				k++
+			}
+		}
+	}
+	r.note("each-c-again: %d cases - every c in 1..16, first run with 0, 1, c-1 or 4c+8 items, then the same node object (untouched) with 4c+8 items, gated (in-flight equation at every quiescent point) or with a c-way barrier", k)
+	rapidPart(r, "rand-again", r.pick(600, 12000), genC08Again, checkC08Again)
 	rapidPart(r, "rand-batch", r.pick(1500, 25000), genC08Batch, checkC08Batch)
 	rapidPart(r, "rand-pool", r.pick(1500, 25000), genC08Pool, checkPool("C08"))
 }
@@ -260,6 +359,8 @@ func genC08Pool(rt *rapid.T) PoolSc {
 
 func init() {
 	registerReplay("C08", checkC08Batch)
+	registerReplaySub("C08", "each-c-again", checkC08Again)
+	registerReplaySub("C08", "rand-again", checkC08Again)
 	registerReplaySub("C08", "rand-pool", checkPool("C08"))
 	registerReplaySub("C08", "large-c-pool", checkPool("C08"))
 }
